@@ -407,8 +407,13 @@ def run_dm(p):
     unchanged = np.array_equal(y_in, y)
     gap, lhs, rhs = adj_gap(a, y, s, gb)
     ok = gap <= TOL_ADJ and np.shape(gb) == a.shape and unchanged
+    line = None
+    if up == 1 and isinstance(p['Nact'], int):
+        m_, n_ = ifn.shape
+        line = (f'dmbp {m_} {n_} {p["Nact"]} {p["sep"][0]} {p["sep"][1]} {s.shape[0]} {s.shape[1]} '
+                + rw([p['shift'][0], p['shift'][1], 2 * dm.obliquity if p['wfe'] else 1.0]) + ' ' + rw(ifn) + ' ' + rw(y))
     return Result(ok, f'<y,render(a)>={lhs:.12g} <render_backprop(y),a>={rhs:.12g} rel gap {gap:.3e}; upstream gradient left unchanged: {unchanged}',
-                  None, None, None, 'r',
+                  line, gb if line else None, a.shape if line else None, 'r',
                   tag=f'{"odd" if ifn.shape[0] % 2 else "even"}{"odd" if ifn.shape[1] % 2 else "even"}/'
                       f'{"pad" if s.shape[0] > dm.Nintermediate[0] else "crop" if s.shape[0] < dm.Nintermediate[0] else "same"}/'
                       f'{"up" if up != 1 else "noup"}/{"shift" if any(p["shift"]) else "noshift"}/{"wfe" if p["wfe"] else "sfe"}')
